@@ -242,7 +242,8 @@ def strings_direct(states: list, rng: random.Random):
 
 _NORM = [(re.compile(rb'\[MAILBOXID \([^)]*\)\]'), b'[MAILBOXID (X)]'),
          (re.compile(rb'UIDVALIDITY \d+'), b'UIDVALIDITY X'),
-         (re.compile(rb'APPENDUID \d+'), b'APPENDUID X')]
+         (re.compile(rb'APPENDUID \d+'), b'APPENDUID X'),
+         (re.compile(rb'COPYUID \d+'), b'COPYUID X')]
 
 
 def _rand_case(word: bytes, rng: random.Random) -> bytes:
@@ -278,12 +279,16 @@ def _send_cmd(w: World, c, tag: bytes, parts: list) -> bytes:
 
 
 TEMPLATES = ['create', 'status', 'login-user', 'login-pass', 'search', 'hdrfields']
+# commands with TWO string arguments: every pair of spellings (an earlier {n} with a
+# later {n+}, ...), kind = 'k1|k2' (k1: the enumerated value, k2: the fixed companion)
+PAIR_TEMPLATES = ['rename-src', 'rename-dst', 'login-both', 'list-pair', 'search-pair']
+ALL_KINDS = ('atom', 'quoted', 'lit', 'litplus')
 
 
 def sibling_transcript(template: str, value: bytes, kind: str, rng: random.Random) -> list:
     """One fresh server, the command with `value` spelled as `kind`, then
     probes.  -> normalised transcript (list of byte strings)."""
-    demo = template in ('search', 'hdrfields')
+    demo = template in ('search', 'hdrfields', 'search-pair')
     w = World('dict', demo=demo, users={'user1': 'pass1'})
     tr = []
     try:
@@ -304,7 +309,34 @@ def sibling_transcript(template: str, value: bytes, kind: str, rng: random.Rando
             tr.append(raw)
             return raw
         cw = lambda word: _rand_case(word, rng)   # noqa: E731
-        if template == 'login-user':
+        if template in PAIR_TEMPLATES:
+            k1, k2 = kind.split('|')
+            arg = ('arg', value, k1)
+            if template == 'login-both':
+                go([cw(b'LOGIN'), b' ', ('arg', b'user1', k1), b' ', ('arg', b'pass1', k2)])
+                go([b'LIST "" *'])
+            else:
+                w.login('a')
+                if template == 'rename-src':
+                    go([b'CREATE ', ('arg', value, 'lit')])
+                    tr.pop()
+                    go([cw(b'RENAME'), b' ', arg, b' ', ('arg', b'dest', k2)])
+                elif template == 'rename-dst':
+                    go([b'CREATE src'])
+                    tr.pop()
+                    go([cw(b'RENAME'), b' ', ('arg', b'src', k2), b' ', arg])
+                elif template == 'list-pair':
+                    go([b'CREATE ', ('arg', value, 'lit')])
+                    tr.pop()
+                    go([cw(b'LIST'), b' ', ('arg', b'', 'quoted' if k2 == 'atom' else k2), b' ', arg])
+                else:
+                    go([b'SELECT INBOX'])
+                    tr.pop()
+                    go([cw(b'SEARCH'), b' ', cw(b'FROM'), b' ', ('arg', b'friend', k2), b' ',
+                        cw(b'SUBJECT'), b' ', arg])
+                go([b'LIST "" *'])
+            go([b'NOOP'])
+        elif template == 'login-user':
             go([cw(b'LOGIN'), b' ', arg, b' pass1'])
             go([b'NOOP'])
         elif template == 'login-pass':
@@ -353,12 +385,72 @@ def _retag(tr: list) -> list:
     return tr
 
 
+_BIG = b'Subject: big\r\n\r\n' + b'0123456789abcdef' * 320 + b'\r\n'     # > 4096 octets
+_TEXT = re.compile(rb'^(\S+ (?:OK|NO|BAD)(?: \[[^\]]*\])?) .*$', re.M)
+
+
+def case_session(casing: str, litkind: str, rng: random.Random) -> list:
+    """one fixed session with every command word (and keyword argument) written in
+    `casing` (upper | lower | random); human-readable text of tagged lines dropped"""
+    w = World('dict', demo=True, users={'user1': 'pass1'})
+    tr = []
+    cw = {'upper': bytes.upper, 'lower': bytes.lower,
+          'random': lambda b: _rand_case(b, rng)}[casing]
+    try:
+        c = w.connect('a')
+        c.take()
+        t = 0
+
+        def go(parts):
+            nonlocal t
+            t += 1
+            raw = _send_cmd(w, c, b't%d' % t, parts)
+            for rx, sub in _NORM:
+                raw = rx.sub(sub, raw)
+            while raw.startswith(b'+ '):
+                raw = raw[raw.index(b'\r\n') + 2:]
+            tr.append(_TEXT.sub(rb'\1', raw))
+        go([cw(b'CAPABILITY')])
+        go([cw(b'LOGIN'), b' user1 pass1'])
+        go([cw(b'CREATE'), b' box'])
+        go([cw(b'APPEND'), b' box (\\Seen) ', ('arg', _BIG, litkind)])
+        go([cw(b'APPEND'), b' box ', ('arg', b'A: b\r\n\r\nsmall\r\n', litkind)])
+        go([cw(b'STATUS'), b' box (', cw(b'MESSAGES UIDNEXT'), b')'])
+        go([cw(b'SELECT'), b' box'])
+        go([cw(b'FETCH'), b' 1:* (', cw(b'FLAGS RFC822.SIZE'), b')'])
+        go([cw(b'UID'), b' ', cw(b'FETCH'), b' 1:* ', cw(b'BODY.PEEK[HEADER.FIELDS'), b' (A Subject)]'])
+        go([cw(b'STORE'), b' 2 ', cw(b'+FLAGS.SILENT'), b' (\\Deleted)'])
+        go([cw(b'SEARCH'), b' ', cw(b'DELETED'), b' ', cw(b'OR SEEN LARGER'), b' 10'])
+        go([cw(b'UID'), b' ', cw(b'SEARCH'), b' ', cw(b'SUBJECT'), b' big'])
+        go([cw(b'COPY'), b' 1 Sent'])
+        go([cw(b'EXPUNGE')])
+        go([cw(b'LIST'), b' "" *'])
+        go([cw(b'LSUB'), b' "" *'])
+        go([cw(b'IDLE')])
+        go([cw(b'CLOSE')])
+        go([cw(b'EXAMINE'), b' box'])
+        go([cw(b'NOOP')])
+        go([cw(b'LOGOUT')])
+    except wc.Hang:
+        tr.append(b'<HANG>')
+    finally:
+        w.close()
+    return tr
+
+
 def siblings_chunk(args):
     """[(classes, value, pred, template, seed)] -> [(value, template, fails)]"""
     out = []
     for classes, value, pred, template, seed in args:
         rng = random.Random(seed)
         kinds = [k for k in ('atom', 'quoted', 'lit', 'litplus') if pred[k]['legal']]
+        if template in PAIR_TEMPLATES:
+            kinds = [f'{k}|{k2}' for k in kinds for k2 in ALL_KINDS]
+            trs = {k: sibling_transcript(template, value, k, rng) for k in kinds}
+            ref = 'lit|lit'
+            fails = [(k, ref, None, trs[k], trs[ref]) for k in kinds if trs[k] != trs[ref]]
+            out.append((classes, value, template, len(kinds), fails))
+            continue
         if len(kinds) < 2:
             continue
         trs = {k: sibling_transcript(template, value, k, rng) for k in kinds}
@@ -810,11 +902,13 @@ def main(tier: str) -> int:
                     u_ideal='WireUtf7_ideal.cfg', u_asis='WireUtf7_asis.cfg',
                     q='WireSeqSet_seqset.cfg')
         sib_len, sib_sample, u_len, u_sample = 1, 160, 2, 150
+        pair_sample = 25
     else:
         cfgs = dict(s_ideal='WireString_ideal5.cfg', s_asis='WireString_asis4.cfg',
                     u_ideal='WireUtf7_ideal6.cfg', u_asis='WireUtf7_asis5.cfg',
                     q='WireSeqSet_seqset4.cfg')
         sib_len, sib_sample, u_len, u_sample = 2, 3000, 3, 2500
+        pair_sample = 400
 
     # ---- TLC ---------------------------------------------------------------
     import shutil
@@ -946,6 +1040,59 @@ def main(tier: str) -> int:
     except Exception as exc:
         run.machinery(f'siblings: {exc!r}')
         return run.finish()
+    # every pair of spellings of two-argument commands
+    pjobs = []
+    psel = list(sel)
+    rng.shuffle(psel)
+    for st in psel[:pair_sample]:
+        classes = tuple(st['v'])
+        value = conc_val(classes, random.Random(_seed(run.seed, classes, 'pair')))
+        for template in PAIR_TEMPLATES:
+            if template != 'login-both':
+                pjobs.append((classes, value, st['pred'], template, _seed(run.seed, classes, template)))
+    allk = {k: {'legal': True, 'parse': True, 'reparse': True, 'frame': True} for k in ALL_KINDS}
+    pjobs.append((('CH',) * 3, b'abc', allk, 'login-both', _seed(run.seed, 'login-both')))
+    for value in (b'abc', b'a b', b'Sent', b'x' * 20):
+        for template in PAIR_TEMPLATES[:2] + PAIR_TEMPLATES[3:]:
+            st = by_classes.get(_abs_val(value))
+            pred = st['pred'] if st is not None else allk
+            if value == b'a b':
+                pred = dict(allk, atom=dict(allk['atom'], legal=False))
+            pjobs.append((_abs_val(value), value, pred, template, _seed(run.seed, value, template)))
+    npair = 0
+    try:
+        for out in wc.pmap(siblings_chunk, wc.chunked(pjobs, 10), procs):
+            for classes, value, template, nk, fails in out:
+                npair += nk
+                run.count_exec(('pair', classes, template), nontrivial=True)
+                for k, ref, sig, got, want in fails:
+                    run.violation(
+                        f'{template}: value {value!r} with spellings {k} is answered differently from '
+                        f'{ref}: {_short(got)} vs {_short(want)}',
+                        {'check': 'C18', 'part': 'pair', 'template': template,
+                         'value_hex': value.hex(), 'kind': k, 'ref': ref}, sig)
+    except Exception as exc:
+        run.machinery(f'pairs: {exc!r}')
+        return run.finish()
+    run.notes['pairs'] = {'servers': npair, 'commands': len(pjobs), 'wall_s': timer.lap()}
+    # any letter case of the command words: one session, three casings x two literal kinds
+    ncase = 0
+    for litkind in ('lit', 'litplus'):
+        ref_tr = case_session('upper', litkind, rng)
+        for casing in ('lower', 'random', 'random'):
+            got = case_session(casing, litkind, rng)
+            ncase += 1
+            run.count_exec(('case', casing, litkind, ncase), nontrivial=True)
+            if got != ref_tr:
+                i = next((j for j, (a_, b_) in enumerate(zip(got, ref_tr)) if a_ != b_),
+                         min(len(got), len(ref_tr)))
+                run.violation(
+                    f'case: the session written in {casing} case ({litkind} literals) is answered '
+                    f'differently from upper case at command {i + 1}: '
+                    f'{(got[i] if i < len(got) else b"<missing>")[:200]!r} vs '
+                    f'{(ref_tr[i] if i < len(ref_tr) else b"<missing>")[:200]!r}',
+                    {'check': 'C18', 'part': 'case', 'casing': casing, 'litkind': litkind}, None)
+    run.notes['case_sessions'] = ncase
     # the one length-dependent decision of the string parsers
     # (LiteralString._check_too_big: 4096 outside APPEND) is outside the class
     # model: probed at the boundary
